@@ -151,7 +151,9 @@ Eval(r, e) ==
      >>)
   /\ orc' = IF pc[r] # "Idle" /\ cfg[r].twin # "none" /\ e.xid # NoPt
             THEN Memo(<<cfg[r].algKey, "eval", e.comp, e.xid>>, e.ok) ELSE orc
-  /\ bad' = [bad EXCEPT ![r] = IF e.ok \/ e.xid = NoPt THEN @ ELSE @ \cup {e.xid}]
+  \* a failed evaluation taints (point, component) until that component is evaluated successfully there again
+  /\ bad' = [bad EXCEPT ![r] = IF e.xid = NoPt THEN @
+                                ELSE IF e.ok THEN @ \ {<<e.xid, e.comp>>} ELSE @ \cup {<<e.xid, e.comp>>}]
   /\ inner' = [inner EXCEPT ![r] = [@ EXCEPT !.fault = @ \/ (~e.ok /\ e.phase \in FaultPhases),
                                             !.nev = IF Mode = "mc" THEN @ + 1 ELSE @]]
   /\ Step
@@ -300,7 +302,7 @@ TrialEnd(r, e) ==
         <<"P:C15", "nonaccept.shrinks", (e.kind # "accept" /\ ~inner[r].dl) => Lt(t.lambUsed, e.lambNext)>>,
         <<"P:C07", "fault.notaccepted", inner[r].fault => e.kind # "accept">>,
         <<"P:C08", "deadline.notaccepted", inner[r].dl => e.kind # "accept">>,
-        <<"P:C07", "accept.neverfailed", e.kind = "accept" => e.ptx \notin bad[r]>>,
+        <<"P:C07", "accept.neverfailed", e.kind = "accept" => ~(\E b \in bad[r] : b[1] = e.ptx)>>,
         <<"P:C05", "accept.inbox", e.kind = "accept" => e.inbox>>,
         <<"P:C15", "exact.solves", (e.kind = "accept" /\ cfg[r].ctl = "Exact") => e.resClass = "le">>
      >>)
